@@ -1,11 +1,11 @@
 import Driver.Util
 import Driver.WsDecode
 import Sonic.Spec.WsWire
-import Sonic.Model.WsStream
+import Sonic.Model.WsWritePath
 
 /-! Trace acceptor for the harness component `wswrite` (C16). -/
 namespace Driver.WsWrite
-open Sonic.Model.WsStream Sonic.Model.WsBuf Driver.WsDecode
+open Sonic.Model.WsWritePath Sonic.Model.WsBuf Driver.WsDecode
 open Sonic.Spec.WsWire (Req Res)
 
 /-- `@n:seed` payloads of the harness: byte i = (i*7 + seed + i/251) % 256. -/
@@ -87,11 +87,11 @@ def parseSeen : List String → Option Seen
 def showSeen (o : Seen) : String :=
   s!"{match o.res with | none => "-" | some e => showErr e} cbs {o.cbs.map fun c => s!"{c.1}:{showErr c.2}"} wire {hex (o.wire.take 24)}({o.wire.length}) segs {o.segs} pending {o.pending} dst {o.dst}"
 
-def modelSeen (s : WS) (o : Sonic.Model.WsStream.Out) : Seen :=
+def modelSeen (s : WS) (o : Sonic.Model.WsWritePath.Out) : Seen :=
   { res := o.res, cbs := o.cbs, wire := o.wire, segs := o.segs,
     pending := s.pending.length, dst := match s.inflight with | some w => w.bytes.length | none => 0 }
 
-def tagsOf (op : WOp) (s s' : WS) (o : Sonic.Model.WsStream.Out) : List String :=
+def tagsOf (op : WOp) (s s' : WS) (o : Sonic.Model.WsWritePath.Out) : List String :=
   (match op with
     | .write a _ p _ => [if a then "awrite" else "write"] ++ (if p.length = 0 then ["empty-payload"] else if p.length ≤ 125 then ["len7"] else if p.length ≤ 65535 then ["len16"] else ["len64"])
         ++ (if (p.length : Int) > s.max then ["above-max"] else []) ++ (if (p.length : Int) = s.max then ["len=max"] else [])
